@@ -259,8 +259,9 @@ def input_class(dss, key_by_name, scalars=None):
         elif not hit:
             parts.append("%s=absent" % d.name)
         else:
+            mt = {c[0]: c[1] for c in d.comps}
             for m in d.measures():
-                parts.append("%s%s=%s" % ("" if len(dss) == 1 else d.name + ".", m, vclass(hit[0].get(m))))
+                parts.append("%s%s:%s=%s" % ("" if len(dss) == 1 else d.name + ".", m, mt[m], vclass(hit[0].get(m))))
     for n, (_, v) in sorted((scalars or {}).items()):
         parts.append("%s=%s" % (n, vclass(v)))
     return ",".join(parts)
